@@ -29,7 +29,9 @@ package libp2p
 import (
 	"bufio"
 	"fmt"
+	"io"
 	"net"
+	"sync"
 	"testing"
 	"testing/synctest"
 
@@ -65,6 +67,10 @@ type c20Result struct {
 
 func c20Run(t *testing.T, r *verifsim.Run) {
 	tp := r.T
+	if tp.Chance("concurrent-sessions", 1, 4) {
+		c20Concurrent(r)
+		return
+	}
 	idents := []*identity{c16NewIdentity(0x31), c16NewIdentity(0x52)}
 	middle := c16NewIdentity(0x77)
 	protocols := []string{"/keep/handshake/1.0.0", "/keep/handshake/2.0.0"}
@@ -295,4 +301,81 @@ func protodelimPrefix(n int) []byte {
 		n >>= 7
 	}
 	return append(b, byte(n))
+}
+
+// c20Concurrent: 2-4 honest, untampered, same-protocol handshake sessions (own
+// pipes, own forwarding middle) run at the same time in one process: all
+// endpoints start from one barrier and nothing orders their act computations,
+// so state shared between handshakes shows up (functionally: an honest session
+// fails; under -race: an unsynchronised access). Every session must complete
+// on both sides. Only the schedule enters the log.
+func c20Concurrent(r *verifsim.Run) {
+	tp := r.T
+	idents := []*identity{c16NewIdentity(0x31), c16NewIdentity(0x52)}
+	const protocol = "/keep/handshake/1.0.0"
+	n := 2 + tp.Choose("concurrent-n", 3)
+	type sess struct {
+		ini        int
+		mu         sync.Mutex
+		resI, resR c20Result
+		conns      []net.Conn
+	}
+	ss := make([]*sess, n)
+	start := make(chan struct{})
+	for k := range ss {
+		se := &sess{ini: tp.Choose("initiator", 2)}
+		ss[k] = se
+		I, R := idents[se.ini], idents[1-se.ini]
+		iConn, mI := net.Pipe()
+		mR, rConn := net.Pipe()
+		se.conns = []net.Conn{iConn, mI, mR, rConn}
+		go func() { io.Copy(mR, mI); mR.Close() }()
+		go func() { io.Copy(mI, mR); mI.Close() }()
+		go func() {
+			<-start
+			c, err := newAuthenticatedOutboundConnection(iConn, libp2pnetwork.ConnectionState{}, I.id, I.privKey, R.id, c20AllowAll{}, protocol)
+			se.mu.Lock()
+			se.resI = c20Result{true, c, err}
+			se.mu.Unlock()
+		}()
+		go func() {
+			<-start
+			c, err := newAuthenticatedInboundConnection(rConn, libp2pnetwork.ConnectionState{}, R.id, R.privKey, c20AllowAll{}, protocol)
+			se.mu.Lock()
+			se.resR = c20Result{true, c, err}
+			se.mu.Unlock()
+		}()
+	}
+	r.Logf("concurrent honest sessions=%d", n)
+	r.Fault("concurrent-sessions")
+	r.Step()
+	synctest.Wait()
+	close(start)
+	synctest.Wait()
+	for _, se := range ss {
+		for _, c := range se.conns {
+			c.Close()
+		}
+	}
+	synctest.Wait()
+	for k, se := range ss {
+		se.mu.Lock()
+		resI, resR := se.resI, se.resR
+		se.mu.Unlock()
+		I, R := idents[se.ini], idents[1-se.ini]
+		if !resI.done || !resR.done {
+			r.Failf("C20:handshake-hangs", "concurrent session %d of %d: a constructor did not return although every connection was closed", k, n)
+			return
+		}
+		if resI.err != nil || resR.err != nil {
+			r.Failf("C20:honest-handshake-failed", "concurrent session %d of %d (untouched acts, same protocol, %d handshakes running at the same time in one process): initiator err=%v responder err=%v", k, n, n, resI.err, resR.err)
+			return
+		}
+		if resI.conn == nil || resR.conn == nil || resI.conn.RemotePeer() != R.id || resR.conn.RemotePeer() != I.id {
+			r.Failf("C20:wrong-remote-peer", "concurrent session %d of %d completed, but a side attributes the connection to somebody else", k, n)
+			return
+		}
+	}
+	r.Probe("concurrent-honest-sessions-completed")
+	r.Logf("all %d concurrent sessions completed", n)
 }
